@@ -49,6 +49,12 @@ struct Val<std::string> {
         return strtol(x.c_str() + 24, nullptr, 10);
     }
 };
+// an element type with an initializer_list constructor: T(3, v) (three copies of v) and T{3, v} (the two elements 3 and v) differ
+template <>
+struct Val<std::vector<int>> {
+    static std::vector<int> make(int v) { return std::vector<int>(3, v); }
+    static long get(const std::vector<int> &x) { return (x.size() == 3 && x[0] == x[1] && x[1] == x[2]) ? x[0] : -1; }
+};
 template <>
 struct Val<trk::Tracked> {
     static trk::Tracked make(int v) { return trk::Tracked(v); }
@@ -190,6 +196,9 @@ void run_typed(const Execution &ex) {
             if ((i + v) % 2 == 0) {
                 T tmp = Val<T>::make(v);
                 r = back ? &me->push_back(tmp) : &me->push_front(tmp);
+            } else if constexpr (std::is_same_v<T, std::vector<int>>) {
+                // constructor arguments, not a ready-made element: (count, value)
+                r = back ? &me->emplace_back(3, v) : &me->emplace_front(3, v);
             } else {
                 r = back ? &me->emplace_back(Val<T>::make(v)) : &me->emplace_front(Val<T>::make(v));
             }
@@ -252,6 +261,8 @@ void run_exec(const Execution &ex) {
     bool ow = ex.cfg.num("ow", 1) != 0;
     if (ty == "int")
         ow ? run_typed<int, true>(ex) : run_typed<int, false>(ex);
+    else if (ty == "vec")
+        ow ? run_typed<std::vector<int>, true>(ex) : run_typed<std::vector<int>, false>(ex);
     else if (ty == "u8")
         ow ? run_typed<unsigned char, true>(ex) : run_typed<unsigned char, false>(ex);
     else if (ty == "str")
